@@ -1,6 +1,7 @@
 #!/bin/bash
 # benignrun.sh <patch.diff> [props...] : apply a behaviour-preserving change to a scratch
 # worktree of /repo and run the quick checks against it; every check must stay silent.
+VERIF=$(cd "$(dirname "$0")/.." && pwd)
 patch=$1; shift
 props=${*:-C09 C10 C11 C19}
 WT=$(mktemp -d /var/tmp/jsim-ben-XXXXXX); rmdir "$WT"
@@ -10,7 +11,7 @@ git -C "$WT" apply "$patch" || { echo "patch does not apply: $patch"; exit 2; }
 rc_all=0
 for p in $props; do
     out=/var/tmp/jsim-benout-$$-$p; rm -rf "$out"
-    JSIM_REPO="$WT" JSIM_OUT="$out" /verif/run $p quick > "$out.log" 2>&1
+    JSIM_REPO="$WT" JSIM_OUT="$out" "$VERIF/run" $p quick > "$out.log" 2>&1
     rc=$?
     echo "$(basename "$patch") $p exit=$rc $(grep -c '^VIOLATION' "$out.log") violation(s) $(grep 'held on\|INCONCL' "$out.log" | head -1 | cut -c1-160)"
     if [ $rc -ne 0 ]; then rc_all=1; grep "^jsim: [a-z-]* on\|^VIOLATION\|INCONCL\|jsim: .*failed" "$out.log" | head -6 | cut -c1-300; mkdir -p /var/tmp/jsim-benfail; cp -r "$out" "$out.log" /var/tmp/jsim-benfail/ 2>/dev/null; fi
